@@ -593,7 +593,7 @@ def run_cfg(arg):
             r = Run(cfg, (k, int(sig)), lines).run()
             stats['runs'] += 1
             if stats['runs'] % 25 == 0:
-                gc.collect()
+                vproc.safe_collect()
             v = chk(cfg, r, (k, int(sig)))
             if not v and (int(sig) != int(SOFT) or (
                     r['inject_at'] and r['inject_at'][1] == 'task')):
